@@ -107,6 +107,7 @@ def classify(run, prop, sess_list, res, codes, use_sem=True, use_vm=True, max_re
     stats = collections.Counter()
     open_ids = {f["id"] for f in vlib.open_findings(prop)}
     reported = 0
+    todo = []
     for i, s in enumerate(sess_list):
         code = codes.get(i, 0)
         semc, vmc = code // 10, code % 10
@@ -128,11 +129,19 @@ def classify(run, prop, sess_list, res, codes, use_sem=True, use_vm=True, max_re
         if bad_sem and vmc in FINDING_EVENTS and FINDING_EVENTS[vmc] in open_ids:
             stats["attributed_" + FINDING_EVENTS[vmc]] += 1
             continue
+        stats["disagree_semantics" if bad_sem else "disagree_model_only"] += 1
+        todo.append((0 if bad_sem else 1, len("".join(s)), i, bad_sem))
+    # failing inputs (semantics disagrees) first, smallest first
+    for _, _, i, bad_sem in sorted(todo):
+        s = sess_list[i]
         if reported >= max_report:
             stats["unreported"] += 1
             continue
         reported += 1
-        want = (lambda r, c: (use_sem and c // 10 == 1) or (use_vm and c % 10 == 1))
+        if bad_sem:
+            want = (lambda r, c: c // 10 == 1 and c % 10 not in FINDING_EVENTS)
+        else:
+            want = (lambda r, c: c % 10 == 1)
         small = shrink(s, want)
         r2, c2 = evaluate([small], name="shrunk", shard=1)
         t = trace(small, r2[0])
@@ -143,10 +152,11 @@ def classify(run, prop, sess_list, res, codes, use_sem=True, use_vm=True, max_re
                            "observed": t, "replay": "./check %s --replay <this file>" % prop})
         else:
             run.violation({"what": "the VM/compiler model (coq/VM.v, Compile.v) and the implementation disagree on this session "
-                                   "while the definitional semantics agrees with the implementation: the theorems about the model "
+                                   "(values, output, error class or machine counters incl. code/data segment sizes) while the "
+                                   "definitional semantics agrees with the implementation: the theorems about the model "
                                    "no longer transfer to the code",
                            "correspondence": "CorrSession.chk_session", "session": small, "original_session": s,
-                           "observed": t}, no_failing_input=True)
+                           "observed": t}, no_failing_input=not any(b for _, _, _, b in todo))
     return stats
 
 
